@@ -1,5 +1,6 @@
 import Driver.Proto
 import Driver.Ops.Update
+import Driver.Ops.Flow
 import Driver.Ops.Tensors
 import Driver.Ops.Drex
 import Driver.Ops.Discrete
@@ -9,6 +10,7 @@ import Driver.Ops.Scsv
 One request per line, one response per line. Each area registers a handler below. -/
 
 def handlers : List (List String → Option String) := [
+  Ops.Flow.handle,
   Ops.Tensors.handle,
   Ops.ScsvOps.handle,
   Ops.Diag.handle,
